@@ -1759,7 +1759,21 @@ class SpaceUpdater(SharedSpaceOperations):
             self._instructions.append(
                 Instruction(self._update_derived_space, (v,)))
 
-        self._instructions.execute()
+        try:
+            self._instructions.execute()
+        except BaseException:
+            # Roll back: derive the space and its subs again
+            # from the bases before the change
+            self._graph = self.manager._graph.copy()
+            self._instructions = InstructionList()
+            self._instructions.append(
+                Instruction(self._update_derived_space, (node,)))
+            for _,  v in nx.edge_dfs(self._graph, node):
+                self._instructions.append(
+                    Instruction(self._update_derived_space, (v,)))
+            self._instructions.execute()
+            raise
+
         self._update_manager()
 
     def remove_bases(self, space, bases):
